@@ -82,6 +82,10 @@ PROPERTIES["C20"] = {
         H("c20_chrono_p1400", group="chrono", sub="c20_chrono", inputs="same, FixedOffset +14:00", bounds="|secs| < 2^34", timeout=1800, tier="thorough"),
         H("c20_chrono_m0100", group="chrono", sub="c20_chrono", inputs="same, FixedOffset -01:00", bounds="|secs| < 2^34", timeout=1800, tier="thorough"),
         H("c20_chrono_p0100", group="chrono", sub="c20_chrono", inputs="same, FixedOffset +01:00", bounds="|secs| < 2^34", timeout=1800, tier="thorough"),
+        H("c20_chrono_win0_m0100", group="chrono", sub="c20_chrono", inputs="secs within 2^14 of the epoch, nanos < 10^9, FixedOffset -01:00", bounds="window around 0", timeout=900),
+        H("c20_chrono_win0_p0100", group="chrono", sub="c20_chrono", inputs="secs within 2^14 of the epoch, FixedOffset +01:00", bounds="window around 0", timeout=900),
+        H("c20_chrono_win32_m0100", group="chrono", sub="c20_chrono", inputs="secs within 2^14 of 2^32, FixedOffset -01:00", bounds="window around 2^32", timeout=900),
+        H("c20_chrono_win32_p0100", group="chrono", sub="c20_chrono", inputs="secs within 2^14 of 2^32, FixedOffset +01:00", bounds="window around 2^32", timeout=900),
         H("c20_chrono_monotone", group="chrono", sub="c20_chrono", inputs="two instants |secs| < 2^33", bounds="|secs| < 2^33", timeout=1800, tier="thorough"),
         H("c20_twin", role="twin", timeout=120),
     ],
